@@ -2,7 +2,7 @@ SPECIFICATION Spec
 CONSTANTS
  Writers = {1, 2, 3}
  MaxCalls = 3
- Blocking = TRUE
+ Blocking = FALSE
  UseLock = TRUE
 INVARIANTS GaplessInv NoDuplicate LockInv
 CHECK_DEADLOCK FALSE
